@@ -237,6 +237,10 @@ def check_generic_lookup(ctx, prog):
         if is_cursor:
             # the cursor starts at the table itself
             init = strip(f.nodes[d[0]['init']]) if d and d[0].get('init', -1) != -1 else None
+            if init is None:
+                asg = [strip(m.ch[1]) for m in f.body.walk() if m.k == 'BinaryOperator' and m.get('op') == '=' and
+                       strip(m.ch[0]).get('ref', {}).get('id') == v['ref']['id']]
+                init = asg[0] if len(asg) == 1 else None
             if init is None or init.k != 'DeclRefExpr' or init['ref'].get('id') != tab['ref']['id']:
                 ok = False
                 detail = 'the row cursor does not start at the first row of the table'
@@ -252,6 +256,10 @@ def check_generic_lookup(ctx, prog):
                     ok = False
                     detail = 'loop index advanced by %s' % render(n)
             if n.k == 'BinaryOperator' and n['op'] == '=' and strip(n.ch[0]).get('ref', {}).get('id') == v['ref']['id']:
+                if is_cursor and strip(n.ch[1]).k == 'DeclRefExpr' and strip(n.ch[1])['ref'].get('id') == tab['ref']['id'] and \
+                        sum(1 for m in f.body.walk() if m.k == 'BinaryOperator' and m.get('op') == '=' and
+                            strip(m.ch[0]).get('ref', {}).get('id') == v['ref']['id']) == 1:
+                    continue        # `for (cursor = table; ...)`: the one assignment is the start at the first row
                 ok = False
                 detail = 'loop index reassigned: %s' % render(n)
     chk.ob('P3', 'generic:first-match-scan', ok, f.where(), f.name, detail,
